@@ -32,10 +32,17 @@ def node_fields(variant):
     return out
 
 
-def pattern_bindings(pat):
-    """field -> bound identifier (or None when ignored with `_`); plus rest flag"""
+def pattern_bindings(pat, variant=None):
+    """field -> bound identifier (or None when ignored with `_`); plus rest flag.  For an or-pattern the alternative
+    naming `variant` is read (each alternative binds the same names, possibly to different fields)."""
     out = {}
     rest = False
+    while pat["k"] == "PRef":
+        pat = pat["pat"]
+    if pat["k"] == "POr":
+        cases = pat["cases"]
+        pick = [c for c in cases if variant is not None and c.get("path") and last(c["path"]) == variant]
+        return pattern_bindings(pick[0] if pick else cases[0], variant)
     if pat["k"] == "PStruct":
         rest = pat["rest"]
         for f in pat["fields"]:
